@@ -801,6 +801,37 @@ func (c *Ctx) widthBoundedAndOwn(bitsFn, ctor *ssa.Function) string {
 	return ""
 }
 
+// paletteCfgFns: the width method (int result) and the palette-construction method of the configuration
+// type a WithData constructor puts into the container's configuration slot.
+func (c *Ctx) paletteCfgFns(ctor *ssa.Function) (bitsFn, cr *ssa.Function) {
+	if ctor == nil {
+		return nil, nil
+	}
+	for _, b := range ctor.Blocks {
+		for _, in := range b.Instrs {
+			mi, ok := in.(*ssa.MakeInterface)
+			if !ok {
+				continue
+			}
+			named, ok := types.Unalias(mi.X.Type()).(*types.Named)
+			if !ok || named.Obj().Pkg() == nil || core.Rel(named.Obj().Pkg().Path()) != "level" {
+				continue
+			}
+			for _, m := range c.Funcs() {
+				if !inPkgs(m, "level") || m.Parent() != nil || recvTypeName(core.FnName(m)) != named.Obj().Name() || m.Signature.Results().Len() != 1 || m.Signature.Params().Len() != 1 {
+					continue
+				}
+				if bt, ok := m.Signature.Results().At(0).Type().Underlying().(*types.Basic); ok && bt.Kind() == types.Int {
+					bitsFn = m
+				} else {
+					cr = m
+				}
+			}
+		}
+	}
+	return bitsFn, cr
+}
+
 // PaletteConfig implements T-PALCFG.
 func (c *Ctx) PaletteConfig() []core.Ob {
 	var obs []core.Ob
@@ -813,31 +844,7 @@ func (c *Ctx) PaletteConfig() []core.Ob {
 		// the configuration type is whatever concrete type the exported constructor puts into the container's
 		// configuration slot; its two methods are told apart by their result type (int: the storage width)
 		ctor := c.Fn(cfg.ctor)
-		var bitsFn, cr *ssa.Function
-		if ctor != nil {
-			for _, b := range ctor.Blocks {
-				for _, in := range b.Instrs {
-					mi, ok := in.(*ssa.MakeInterface)
-					if !ok {
-						continue
-					}
-					named, ok := types.Unalias(mi.X.Type()).(*types.Named)
-					if !ok || named.Obj().Pkg() == nil || core.Rel(named.Obj().Pkg().Path()) != "level" {
-						continue
-					}
-					for _, m := range c.Funcs() {
-						if !inPkgs(m, "level") || m.Parent() != nil || recvTypeName(core.FnName(m)) != named.Obj().Name() || m.Signature.Results().Len() != 1 || m.Signature.Params().Len() != 1 {
-							continue
-						}
-						if bt, ok := m.Signature.Results().At(0).Type().Underlying().(*types.Basic); ok && bt.Kind() == types.Int {
-							bitsFn = m
-						} else {
-							cr = m
-						}
-					}
-				}
-			}
-		}
+		bitsFn, cr := c.paletteCfgFns(ctor)
 		var parts []string
 		bad := ""
 		if ctor == nil {
